@@ -96,7 +96,9 @@ Proof.
   - split; [apply inv_b_iff; vm_compute; reflexivity|split; apply Z.leb_le; vm_compute; reflexivity].
   - cbn [w_ops mono]. repeat split; first [apply Z.leb_le; vm_compute; reflexivity | apply Z.ltb_lt; vm_compute; reflexivity].
   - destruct (run_outs w_state w_ops); reflexivity.
-  - vm_compute. repeat constructor.
+  - assert (Hb : forallb (fun r => negb (p_capped r)) (pays (snd (run_outs w_state w_ops))) = true) by (vm_compute; reflexivity).
+    unfold never_capped. apply Forall_forall. intros r Hr. rewrite forallb_forall in Hb. specialize (Hb r Hr).
+    destruct (p_capped r); [discriminate|reflexivity].
   - vm_compute; reflexivity.
   - vm_compute; reflexivity.
   - vm_compute; reflexivity.
